@@ -165,6 +165,13 @@ def rule_tfrom(prog):
     return obs
 
 
+CTOR_RE = r'FromPrimitive>?::from_\w+$|::try_from$|::from_str|::from_f\d+_retain$'
+
+
+def _value_aggs(b):
+    return [rv for bb, i, pl, rv in b.assigns() if rv['k'] == 'agg' and rv['agg'] == 'adt' and rv.get('adt') == VALUE]
+
+
 def rule_lossy(prog):
     """numeric From<T> for Value: the fallible constructor's failure must not be defaulted unless
     the constructor is total for T"""
@@ -176,9 +183,16 @@ def rule_lossy(prog):
             continue
         n += 1
         key = 'LOSSY|From<%s>' % src
-        calls = [c for c in b.live_calls if re.search(r'FromPrimitive>?::from_\w+$|::try_from$|::from_str|::from_f\d+_retain$', c.rdef or c.callee or '')]
+        calls = [c for c in b.live_calls if re.search(CTOR_RE, c.rdef or c.callee or '')]
         # the payload must trace to the parameter through exactly one constructor
         aggs = [rv for bb, i, pl, rv in b.assigns() if pl['l'] == 0 and not pl['p'] and rv['k'] == 'agg']
+        if len(calls) != 1 or len(aggs) != 1:
+            # the conversion may sit in a private helper: read the body with helpers inlined
+            v = prog.view(b)
+            if v is not b:
+                vcalls = [c for c in v.live_calls if re.search(CTOR_RE, c.rdef or c.callee or '')]
+                if len(vcalls) == 1 and len(_value_aggs(v)) == 1:
+                    b, calls, aggs = v, vcalls, _value_aggs(v)
         if len(calls) != 1 or len(aggs) != 1:
             casts = [rv for bb, i, pl, rv in b.assigns() if rv['k'] == 'cast' and rv['cast'] in ('IntToInt', 'FloatToInt', 'IntToFloat', 'FloatToFloat')]
             if casts:
